@@ -24,6 +24,22 @@ def build(ctx, gs):
                      dispenso=vlib.DISPENSO_SRCS, flags=TUNE + ['-DDISPENSO_TUNE_WAKE_GROUP_SIZE=%d' % gs])
 
 
+def stress(ctx, what, rounds, seed_off=0):
+    """E5: free-running rounds of harness/drv/drv_poolstress.cpp (real threads, real futex, inert hooks: also the
+    windows between two hook points), one record per round validated by spec/pool/PoolObs.tla"""
+    exe = ctx.build('drv_poolstress', ['harness/drv/drv_poolstress.cpp', 'harness/ctl/ctl.cpp'], dispenso=vlib.DISPENSO_SRCS)
+    out = os.path.join(ctx.work, 'poolstress.ndjson')
+    tot, _ = ctx.driver(exe, ['--out', out, '--stress', rounds, '--seed', ctx.seed + seed_off], what,
+                        label='free-running pool rounds (submission paths x workers x resize x destructor)',
+                        allow_incomplete=True, timeout=1500)
+    ctx.validate(SPEC, 'PoolObs.tla', 'PoolObs.cfg', out, what, executions=tot.get('executions', 0),
+                 label='free-running pool rounds: exactly once, nothing after ~ThreadPool, workRemaining_ = 0 at quiescence')
+    ctx.cov['free_running_rounds'] = tot.get('executions', 0)
+    if 'free-running rounds (E5)' not in ' '.join(ctx.assumptions):
+        ctx.assumptions.append('free-running rounds (E5) observe what the public API shows (run counts per task, completion) plus '
+                               'workRemaining_ at a quiescent point; a round counts as stuck after 20 s without progress')
+
+
 def tla_prog(prog):
     """'main:new2,fq1;p2:up' -> TLA+ record text + max worker count"""
     threads = []
